@@ -198,6 +198,54 @@ def run(ctx):
         else:
             ctx.undec('R-NCATTRAPI', q_, wz, 'no attribute store on %s found' % dest_)
     ctx.floor('attribute stores judged by R-NCATTRAPI', na, 4)
+    # ---- R-DATAWRITE: every variable's data are written, whatever the data look like
+    from .. import paths as _p07
+    ctx.rule('R-DATAWRITE', 'addVariableData stores into the destination variable on every path (the write is also what extends an unlimited dimension)')
+    avd = mod.func('Pseudo2NetCDF.addVariableData')
+    wavd = 'src/PseudoNetCDF/%s Pseudo2NetCDF.addVariableData' % RP
+    nd_, bad_ = 0, None
+    for pth in _p07.enumerate_paths(avd.body, limit=5000):
+        if pth.exit[0] == 'raise':
+            continue
+        nd_ += 1
+        st_ = [st for st in pth.stmts if isinstance(st, ast.Assign) and isinstance(st.targets[0], ast.Subscript) and isinstance(st.targets[0].value, ast.Name) and st.targets[0].value.id == dest]
+        if not st_:
+            bad_ = bad_ or pth
+    if bad_ is not None:
+        conds = [norm(x[1])[:40] + ('' if x[2] else ' is false') for x in bad_.items if x[0] == 'cond'][-2:]
+        ctx.violation(Finding('R-DATAWRITE', RP, 'Pseudo2NetCDF.addVariableData', avd.body[-1], 'on the path with %s nothing is stored into the destination variable: its cells keep whatever the file library pre-filled, '
+                              'and an unlimited dimension that only this variable would have extended stays at length 0' % ' / '.join(conds)))
+    elif nd_:
+        ctx.ok('R-DATAWRITE', 'addVariableData', wavd, 'destination variable assigned on all %d paths' % nd_)
+    # ---- R-ATTRSKIP: attributes are skipped only for the reasons the converter documents (bound methods; _FillValue of a disk variable)
+    ctx.rule('R-ATTRSKIP', 'the attribute writers skip an attribute only because its value is a bound method (or it is the _FillValue the disk variable was created with)')
+    for q_, dest_ in (('Pseudo2NetCDF.addGlobalProperties', 'nfile'), ('Pseudo2NetCDF.addVariableProperties', 'nvar')):
+        f_ = mod.func(q_)
+        loops_ = [st for st in f_.body if isinstance(st, ast.For)]
+        if not loops_:
+            ctx.undec('R-ATTRSKIP', q_, 'src/PseudoNetCDF/%s %s' % (RP, q_), 'attribute loop not found')
+            continue
+        np_, badp = 0, None
+        for pth in _p07.enumerate_paths(loops_[0].body, limit=5000):
+            if pth.exit[0] == 'raise':
+                continue
+            wrote = any(isinstance(c, ast.Call) and isinstance(c.func, ast.Attribute) and c.func.attr == 'setncattr' for st in pth.stmts for c in walk_expr(st)) or \
+                any(isinstance(st, ast.Try) for st in pth.stmts) or \
+                any(isinstance(p_, ast.ExceptHandler) for st in pth.stmts for p_ in parent_chain(st))      # the store was attempted and raised
+            if wrote:
+                continue
+            np_ += 1
+            reasons = [(norm(x[1]), x[2]) for x in pth.items if x[0] == 'cond']
+            okr = any(('MethodType' in t and 'isinstance' in t and (pol is True) != t.startswith('not ')) for t, pol in reasons) or \
+                any(("'_FillValue'" in t and pol is True) for t, pol in reasons)
+            if not okr:
+                badp = badp or (pth, reasons)
+        wq = 'src/PseudoNetCDF/%s %s' % (RP, q_)
+        if badp is not None:
+            why = ' / '.join('%s%s' % (t[:50], '' if pol else ' is false') for t, pol in badp[1][-2:]) or 'no condition'
+            ctx.violation(Finding('R-ATTRSKIP', RP, q_, loops_[0], 'an attribute is skipped when %s: it is missing from the saved file although its name is public and its value is storable' % why), oid=q_)
+        else:
+            ctx.ok('R-ATTRSKIP', q_, wq, '%d skipping paths, all for a bound method / the creation-time _FillValue' % np_)
     # ---- R-KWCOPY
     kdef = [st for st in iter_stmts(av.body) if isinstance(st, ast.Assign) and isinstance(st.targets[0], ast.Name) and st.targets[0].id == 'create_variable_kwds']
     if not kdef:
